@@ -1,6 +1,9 @@
 import JunoModel.Common.Proto
 import JunoModel.C06.Model
 import JunoModel.C06.ModelFeed
+import JunoModel.C06.ModelStore
+import JunoModel.C06.ModelStatus
+import JunoModel.C06.ModelClasses
 /-!
 Line-protocol driver for the C06 model (`lake build c06drv`).
 
@@ -35,6 +38,25 @@ and root 0). Chains are written GENESIS FIRST.
                           one event of `Impl.step`     -> `<obs>;<obs>… | task=<lpv|->`
   impl? <event>           the same answer without changing the state
   impl-end                -> `chain=<…> reorg=<range|-> task=<lpv|->`
+  impl deliverv REQ B VERHEX C   the delivery with the block's protocol-version string (hex of its
+                          bytes, `-` = empty) as an input (`Impl.deliverV`)
+  ver VERHEX              core.ParseBlockVersion / CheckBlockVersion
+                          -> `ok MAJOR MINOR PATCH supported=0|1` | `err:too-long` | `err:bad-number`
+  st <op> …               the status bookkeeping of storeTask (`ModelStatus.lean`), PURE: the status is passed
+                          in and out as `SN SH HI CU` (startingBlockNumber `N|-`, startingBlockHeader `N:H|-`,
+                          highestBlockHeader `N:H|-`, catchUpMode 0/1)
+      st begin SN SH HI CU NEXT        head of syncBlocks (NEXT = nextHeight())        -> SN SH HI CU
+      st end SN SH HI CU               deferred cleanup of syncBlocks                  -> SN SH HI CU
+      st poll SN SH HI CU N H          pollLatest stored this header                   -> SN SH HI CU
+      st stored PROCS SN SH HI CU N H CAS   storeTask after Store of block (N,H)       -> SN SH HI CU reset=0|1
+      st start SN SH HI CU (N:H|-)     StartingBlockHeader(); last arg = the stored block numbered SN, if any
+                                                                                       -> (hdr N:H|err-not-set|err-db) SN SH HI CU
+      st workers PROCS CU              setupWorkers: number of fetchers                -> K
+  classes K h* | D h* | V0 h* | V1 h* | F h*   fetchUnknownClasses: K = classes the head state holds, D / V0 / V1 =
+                          classes of deployed contracts / declared Cairo-0 / declared Sierra classes in the
+                          order they are walked, F = classes whose fetch fails   -> `ok h*` | `err h`
+  dclass B VERHEX C loc B*   what one delivery of B does on this chain (`deliverClass`)
+                          -> sanity | cancelled | bad-version | bad-number | parent-mismatch | root-mismatch | stored
 -/
 open Juno.Proto Juno.C06
 
@@ -208,8 +230,90 @@ def stepSpec (cfg : Cfg) (m : Mode) (s : Spec) (line : String) : Spec × String 
       | .ok s' => (s', "ok")
       | .error r => (s, "reject " ++ r.name)
 
+def optNat? (s : String) : Option (Option Nat) :=
+  if s == "-" then some none else s.toNat?.map some
+
+def optHdr? (s : String) : Option (Option Hdr) :=
+  if s == "-" then some none else
+  match s.splitOn ":" with
+  | [n, h] => do pure (some ⟨← n.toNat?, ← h.toNat?⟩)
+  | _ => none
+
+def status? : List String → Option Status
+  | [sn, sh, hi, cu] => do pure ⟨← optNat? sn, ← optHdr? sh, ← optHdr? hi, ← bit? cu⟩
+  | _ => none
+
+def showOptHdr : Option Hdr → String
+  | some h => s!"{h.num}:{h.hash}"
+  | none => "-"
+
+def showStatus (s : Status) : String :=
+  (match s.startNum with | some n => toString n | none => "-") ++ " " ++ showOptHdr s.startHdr ++ " " ++
+    showOptHdr s.highest ++ " " ++ (if s.catchUp then "1" else "0")
+
+/-- the pure status ops (see the header) -/
+def stepStatus : List String → String
+  | ["begin", sn, sh, hi, cu, next] =>
+    match status? [sn, sh, hi, cu], next.toNat? with
+    | some s, some nx =>
+      let c : Chain := if nx == 0 then [] else [⟨nx - 1, 0, 0, true, 0, 0⟩]
+      showStatus (s.runStart c)
+    | _, _ => "bad-op"
+  | ["end", sn, sh, hi, cu] =>
+    match status? [sn, sh, hi, cu] with
+    | some s => showStatus s.runEnd
+    | none => "bad-op"
+  | ["poll", sn, sh, hi, cu, n, h] =>
+    match status? [sn, sh, hi, cu], n.toNat?, h.toNat? with
+    | some s, some n, some h => showStatus (s.poll ⟨n, h⟩)
+    | _, _, _ => "bad-op"
+  | ["stored", procs, sn, sh, hi, cu, n, h, cas] =>
+    match procs.toNat?, status? [sn, sh, hi, cu], n.toNat?, h.toNat?, bit? cas with
+    | some procs, some s, some n, some h, some cas =>
+      let r := s.onStored procs ⟨n, h, 0, true, 0, 0⟩ cas
+      showStatus r.1 ++ " reset=" ++ (if r.2 then "1" else "0")
+    | _, _, _, _, _ => "bad-op"
+  | ["start", sn, sh, hi, cu, fb] =>
+    match status? [sn, sh, hi, cu], optHdr? fb with
+    | some s, some fb =>
+      let c : Chain := match fb with | some h => [⟨h.num, h.hash, 0, true, 0, 0⟩] | none => []
+      let r := s.startingHeader c
+      (match r.1 with
+        | .hdr h => s!"hdr {h.num}:{h.hash}"
+        | .errNotSet => "err-not-set"
+        | .errDb => "err-db") ++ " " ++ showStatus r.2
+    | _, _ => "bad-op"
+  | ["workers", procs, cu] =>
+    match procs.toNat?, bit? cu with
+    | some procs, some cu => toString (numWorkers procs ⟨none, none, none, cu⟩)
+    | _, _ => "bad-op"
+  | _ => "bad-op"
+
+/-- split `K a b | D c | …` into labelled sections -/
+def sections (ws : List String) : List (String × List String) :=
+  let rec go : List String → List String → List (List String) → List (List String)
+    | [], cur, acc => (cur.reverse :: acc).reverse
+    | "|" :: rest, cur, acc => go rest [] (cur.reverse :: acc)
+    | w :: rest, cur, acc => go rest (w :: cur) acc
+  (go ws [] []).filterMap (fun sec => match sec with | l :: xs => some (l, xs) | [] => none)
+
+def stepClasses (ws : List String) : String :=
+  let secs := sections ws
+  let get (l : String) : Option (List Nat) :=
+    match secs.find? (fun p => p.1 == l) with
+    | some p => p.2.mapM String.toNat?
+    | none => some []
+  match get "K", get "D", get "V0", get "V1", get "F" with
+  | some k, some d, some v0, some v1, some f =>
+    match fetchUnknownClasses (fun h => k.contains h) (fun h => !f.contains h) d v0 v1 with
+    | .ok res => if res.isEmpty then "ok" else "ok " ++ " ".intercalate (res.map toString)
+    | .error e => s!"err {e}"
+  | _, _, _, _, _ => "bad-op"
+
 def stepLine (st : St) (line : String) : St × String :=
   match words line with
+  | "st" :: ws => (st, stepStatus ws)
+  | "classes" :: ws => (st, stepClasses ws)
   | ["cfg", z, n, c, v, l] =>
     match bit? z, bit? n, bit? c, bit? v, bit? l with
     | some z, some n, some c, some v, some l => ({ st with cfg := ⟨z, n, c, v, l⟩ }, "ok")
@@ -230,6 +334,25 @@ def stepLine (st : St) (line : String) : St × String :=
       let r := st.impl.step st.cfg e
       (st, ";".intercalate (r.2.map showObs) ++ " | task=" ++
         (match r.1.task with | some l => toString l | none => "-"))
+  | ["ver", v] =>
+    match hexToBytes? v with
+    | none => (st, "bad-op")
+    | some bs =>
+      (st, match parseBlockVersion bs with
+        | .ok a b c => s!"ok {a} {b} {c} supported={if checkBlockVersion bs then 1 else 0}"
+        | .tooLong => "err:too-long"
+        | .badNumber => "err:bad-number")
+  | "dclass" :: b :: v :: c :: "loc" :: locW =>
+    match blk? b, hexToBytes? v, bit? c, chain? locW with
+    | some b, some v, some c, some loc => (st, (deliverClass v loc b c).name)
+    | _, _, _, _ => (st, "bad-op")
+  | ["impl", "deliverv", r, b, v, c] =>
+    match r.toNat?, blk? b, hexToBytes? v, bit? c with
+    | some r, some b, some v, some c =>
+      let res := st.impl.deliverV st.cfg r b v c
+      ({ st with impl := res.1 }, ";".intercalate (res.2.map showObs) ++ " | task=" ++
+        (match res.1.task with | some l => toString l | none => "-"))
+    | _, _, _, _ => (st, "bad-op")
   | "impl" :: ws =>
     match implEv? ws with
     | none => (st, "bad-op")
